@@ -3,9 +3,12 @@ package harness
 import (
 	"context"
 	"fmt"
+	"os"
+	"path/filepath"
 	"runtime"
 	"strings"
 	"sync"
+	"sync/atomic"
 	"testing"
 	"testing/synctest"
 	"time"
@@ -40,6 +43,7 @@ type evlog struct {
 }
 
 func (l *evlog) ev(format string, a ...interface{}) {
+	lastEvlog.Store(l)
 	l.mu.Lock()
 	defer l.mu.Unlock()
 	now := int64(time.Since(l.start))
@@ -90,6 +94,9 @@ type sim struct {
 	recvMsgs [2][][]byte // messages returned by Recv on side x
 	txCount  [2]int
 	wg       sync.WaitGroup
+	blockTx  [2]bool // the transport's send blocks until its context ends (under mu)
+	closeRet [2]bool // Close returned on side x (under mu)
+	closeRetN [2]int
 }
 
 func errEnum(err error) string {
@@ -119,6 +126,11 @@ func (s *sim) sendFunc(x int) func(ctx context.Context, b []byte) error {
 		}
 		c := append([]byte{}, b...)
 		s.mu.Lock()
+		if s.blockTx[x] {
+			s.mu.Unlock()
+			<-ctx.Done()
+			return ctx.Err()
+		}
 		s.ch[x] = append(s.ch[x], c)
 		s.chT[x] = append(s.chT[x], time.Now())
 		s.txCount[x]++
@@ -352,6 +364,18 @@ func (s *sim) snapshot(x int) {
 	s.l.ev("SNAP %d %d %d %d %d %d", x, n, ss, base, top, recv)
 }
 
+func (s *sim) closeReturned(x int) bool {
+	s.mu.Lock()
+	defer s.mu.Unlock()
+	return s.closeRet[x]
+}
+
+func (s *sim) setBlockTx(v bool) {
+	s.mu.Lock()
+	s.blockTx[0], s.blockTx[1] = v, v
+	s.mu.Unlock()
+}
+
 func (s *sim) closeSide(x int) {
 	if s.conn[x] == nil || s.closed[x] {
 		return
@@ -362,6 +386,9 @@ func (s *sim) closeSide(x int) {
 	go func() {
 		defer s.wg.Done()
 		_ = s.conn[x].Close()
+		s.mu.Lock()
+		s.closeRet[x] = true
+		s.mu.Unlock()
 		s.l.ev("CR %d", x)
 	}()
 	synctest.Wait()
@@ -423,7 +450,68 @@ func (s *sim) finish(baseGoroutines int) []string {
 
 // bubble runs one scenario in its own synctest bubble; a panic inside the
 // bubble (including the runtime's "blocked goroutines remain") is returned.
+// stuckLimit is the real time one bubble may take. Scenarios take milliseconds; a bubble whose
+// clock cannot advance (some goroutine waits for a mutex another one holds while blocked forever)
+// never finishes, and the watchdog turns that into a reported failure instead of a 25 minute hang.
+const stuckLimit = 75 * time.Second
+
+var lastEvlog atomic.Pointer[evlog]
+
+func stuckWatchdog(done chan struct{}) {
+	select {
+	case <-done:
+		return
+	case <-time.After(stuckLimit):
+	}
+	buf := make([]byte, 4<<20)
+	buf = buf[:runtime.Stack(buf, true)]
+	var gs []string
+	for _, g := range strings.Split(string(buf), "\n\n") {
+		if !strings.Contains(g, "lightning-node-connect/") {
+			continue
+		}
+		lines := strings.Split(g, "\n")
+		fn := ""
+		for _, ln := range lines[1:] {
+			if strings.Contains(ln, "lightning-node-connect/") && !strings.HasPrefix(ln, "\t") {
+				fn = strings.TrimSpace(ln)
+				if i := strings.LastIndex(fn, "("); i > 0 {
+					fn = fn[:i]
+				}
+				fn = fn[strings.LastIndex(fn, "/")+1:]
+				break
+			}
+		}
+		st := lines[0]
+		if i := strings.Index(st, "["); i >= 0 {
+			st = st[i:]
+		}
+		gs = append(gs, fn+" "+st)
+	}
+	evs := ""
+	if l := lastEvlog.Load(); l != nil {
+		l.mu.Lock()
+		evs = fmt.Sprint(lastN(l.keep, 40))
+		l.mu.Unlock()
+	}
+	name := "?"
+	if q := curOracle.Load(); q != nil {
+		name = q.name
+	}
+	f, err := os.Create(filepath.Join(outDir(), "stuck_"+name+"_oracle.txt"))
+	if err == nil {
+		fmt.Fprintf(f, "FAIL\tstuck:%s\tscenario made no progress for %v of real time (a call or goroutine of the connection is blocked forever and the virtual clock cannot advance); library goroutines: %s; last events %s\n",
+			name, stuckLimit, strings.Join(gs, " | "), evs)
+		f.Close()
+	}
+	os.Stderr.Write(buf)
+	os.Exit(7)
+}
+
 func bubble(t *testing.T, f func(t *testing.T)) (panicked string) {
+	done := make(chan struct{})
+	go stuckWatchdog(done) // started outside the bubble: real time
+	defer close(done)
 	defer func() {
 		if r := recover(); r != nil {
 			panicked = fmt.Sprint(r)
